@@ -40,6 +40,24 @@ TypesCases ==
                    Member("error", "E1", "none", Struct(<<Fld("e", t)>>), NoType) >>)
      : t \in {u \in Pool(TypeDepth) : HasAnon(u)}}
 
+(* Mode "stacked": two and three qualifiers (?, [], [string]) stacked in front of an anonymous struct / enum (and of a plain type):  *)
+(* at this depth the general pool is too large for the quick tier, and the renderer / generator treat "qualifier of a qualifier" *)
+(* of something breakable on its own code path                                                                                  *)
+Quals == {"arr", "dict", "opt"}
+Q(k, t) == CASE k = "arr" -> Arr(t) [] k = "dict" -> Dict(t) [] k = "opt" -> Opt(t)
+StackInner == {Struct(<<Fld("a", Plain("int")), Fld("b", Plain("string"))>>), Enum(<<"one", "two", "three">>),
+               Struct(<<Fld("s", Struct(<<Fld("z", Plain("bool"))>>))>>), Plain("string")}
+QPairs == {p \in Quals \X Quals : ~(p[1] = "opt" /\ p[2] = "opt")}
+QTriples == {p \in Quals \X Quals \X Quals : ~(p[1] = "opt" /\ p[2] = "opt") /\ ~(p[2] = "opt" /\ p[3] = "opt")}
+Stacked == {Q(p[1], Q(p[2], i)) : p \in QPairs, i \in StackInner}
+        \cup {Q(p[1], Q(p[2], Q(p[3], i))) : p \in QTriples,
+                 i \in {Struct(<<Fld("a", Plain("int")), Fld("b", Plain("string"))>>), Enum(<<"one", "two", "three">>)}}
+StackedCases ==
+  {Iface("one", << Member("type", "T1", "none", Struct(<<Fld("x", Plain("int"))>>), NoType),
+                   Member("method", "M1", "one", Struct(<<Fld("f", t)>>), Struct(<<Fld("g", t), Fld("h", Plain("bool"))>>)),
+                   Member("type", "T2", "multi", Struct(<<Fld("interface", t), Fld("y", Opt(Plain("string")))>>), NoType) >>)
+     : t \in Stacked}
+
 Templates(i) ==
   LET nm(p) == <<p, i>> IN   \* the harness joins prefix and index into a name
   { Member("method", "M", d, Struct(<<>>), Struct(<<>>)) : d \in {"none", "one"} }
@@ -103,7 +121,7 @@ RtCases ==
                     Member("error", "InterfaceNotFound", "none", Struct(<<Fld("ifname", Plain("string")), Fld("code", Plain("int"))>>), NoType) >>)
      : t \in RtPool}
 
-Universe == CASE Mode = "rt" -> RtCases [] Mode = "types" -> TypesCases [] Mode = "shapes" -> ShapesCases [] Mode = "dups" -> DupCases [] Mode = "names" -> NamesCases
+Universe == CASE Mode = "rt" -> RtCases [] Mode = "types" -> TypesCases [] Mode = "shapes" -> ShapesCases [] Mode = "dups" -> DupCases [] Mode = "names" -> NamesCases [] Mode = "stacked" -> StackedCases
 
 Init == ast \in Universe
 Next == UNCHANGED ast
